@@ -237,20 +237,40 @@ func validURNsOnly(c *contactSpec) *contactSpec {
 	return c
 }
 
+// last seen of a starting / refreshed contact relative to the times the messages of the history come in (the start at
+// 08:00:00, the i-th resume at 08:00:00 + i hours, all on 2024-05-06): never, long before, just before, exactly at,
+// just after one of them, after all of them
+func genLastSeen(r *hx.Rand) string {
+	switch r.Intn(8) {
+	case 0, 1:
+		return ""
+	case 2:
+		return hx.Pick(r, []string{"2020-05-05T10:00:00Z", "2018-01-01T00:00:00Z"})
+	case 3:
+		return hx.Pick(r, []string{"2024-05-06T07:59:30Z", "2024-05-06T08:59:59.5Z", "2024-05-06T09:59:30+00:00"})
+	case 4:
+		return hx.Pick(r, []string{"2024-05-06T08:00:00Z", "2024-05-06T09:00:00Z", "2024-05-06T10:00:00Z", "2024-05-06T11:00:00+01:00"})
+	case 5:
+		return hx.Pick(r, []string{"2024-05-06T08:00:30Z", "2024-05-06T09:00:00.000001Z", "2024-05-06T10:30:00Z"})
+	default:
+		return hx.Pick(r, []string{"2024-05-06T23:00:00Z", "2030-01-01T00:00:00Z", "2024-05-07T00:00:00Z"})
+	}
+}
+
 func genSprintInput(r *hx.Rand) *sprintInput {
 	uni := genUniverse(r, true)
 	uni.UseLoc = true
 	// a group on last_seen_on / tickets / urns more often: these change by routes other than set_contact_field
 	if r.Chance(1, 2) {
 		q := hx.Pick(r, []qdef{{`last_seen_on != ""`, "QLastSeenSet"}, {`tickets > 0`, "QHasTicket"}, {`telegram != ""`, "QHasScheme 2"},
-			{`last_seen_on = ""`, "QLastSeenUnset"}, {`language = "fra"`, "QLangIs 2"}, {`name = "bob"`, "QNameIs " + textCoq("bob")}})
+			{`last_seen_on = ""`, "QLastSeenUnset"}, {`language = "fra"`, "QLangIs 2"}, {`name = "bob"`, "QNameIs " + textCoq("bob")},
+			{seenCmpQueries[0], "QLastSeenCmp 0"}, {seenCmpQueries[1], "QLastSeenCmp 1"}, {seenCmpQueries[2], "QLastSeenCmp 2"}, {seenCmpQueries[3], "QLastSeenCmp 3"},
+			{seenCmpQueries[2], "QLastSeenCmp 2"}, {seenCmpQueries[3], "QLastSeenCmp 3"}})
 		uni.Groups = append(uni.Groups, groupSpec{Name: fmt.Sprintf("X%d", len(uni.Groups)), Query: q.q, Coq: q.coq})
 	}
 	in := &sprintInput{Universe: uni, Trigger: hx.Pick(r, []string{"manual", "msg", "msg"})}
 	in.Contact = validURNsOnly(genContact(r, uni))
-	if r.Chance(1, 2) {
-		in.Contact.LastSeen = ""
-	}
+	in.Contact.LastSeen = genLastSeen(r)
 	nn := r.Range(0, 5)
 	if r.Chance(1, 15) {
 		nn = 0
@@ -281,6 +301,7 @@ func genSprintInput(r *hx.Rand) *sprintInput {
 			switch r.Intn(5) {
 			case 0, 1:
 				rs.Refresh = validURNsOnly(genContact(r, uni))
+				rs.Refresh.LastSeen = genLastSeen(r)
 			case 2: // a refreshed contact equal to what the caller would have stored: no contact_refreshed
 				rs.Kind += "+same"
 			default: // ... or differing from it in one member only
@@ -394,7 +415,7 @@ func runSprintCase(res *hx.Result, in *sprintInput, sh *sharder) error {
 			obs.refreshC, _ = u.buildContact(rs.Refresh)
 			obs.class += "+refreshed-contact"
 		} else if rs.Tweak != "" {
-			js := tweakContact(u, toMap(session.Contact()), rs.Tweak)
+			js := tweakContact(u, toMap(session.Contact()), rs.Tweak, sprintBase.Add(time.Duration(i+1)*time.Hour))
 			refresh, obs.refreshC = contactFromJSON(u, js), contactFromJSON(u, js)
 			obs.class += "+contact-differing-in:" + rs.Tweak
 		} else if strings.HasSuffix(rs.Kind, "+same") {
@@ -438,7 +459,7 @@ func contactFromJSON(u *universe, m map[string]any) *flows.Contact {
 }
 
 // tweakContact changes exactly one member of a marshalled contact
-func tweakContact(u *universe, m map[string]any, what string) map[string]any {
+func tweakContact(u *universe, m map[string]any, what string, now time.Time) map[string]any {
 	switch what {
 	case "status":
 		m["status"] = map[string]string{"active": "blocked", "blocked": "stopped", "stopped": "archived", "archived": "active"}[m["status"].(string)]
@@ -483,11 +504,17 @@ func tweakContact(u *universe, m map[string]any, what string) map[string]any {
 		}
 	case "last_seen":
 		m["last_seen_on"] = "2001-01-01T00:00:00Z"
+	case "last_seen_later": // later than the message this resume brings
+		m["last_seen_on"] = now.Add(90 * time.Second).Format(time.RFC3339Nano)
+	case "last_seen_now": // exactly when the message of this resume comes in
+		m["last_seen_on"] = now.Format(time.RFC3339Nano)
+	case "last_seen_just_before":
+		m["last_seen_on"] = now.Add(-30 * time.Second).Format(time.RFC3339Nano)
 	}
 	return m
 }
 
-var tweaks = []string{"status", "groups", "field", "timezone", "ticket", "last_seen"}
+var tweaks = []string{"status", "groups", "field", "timezone", "ticket", "last_seen", "last_seen_later", "last_seen_now", "last_seen_just_before", "last_seen_later"}
 
 var statePaths = []string{"Rwanda > Kigali City", "Rwanda > Eastern Province"}
 var districtPaths = []string{"Rwanda > Kigali City > Gasabo", "Rwanda > Kigali City > Nyarugenge", "Rwanda > Eastern Province > Rwamagana"}
@@ -635,9 +662,26 @@ func sprintCorpus() []*sprintInput {
 	refreshed := &contactSpec{Name: "Bob", Lang: "fra", Status: "active", Groups: []int{1}, Fields: map[string]string{}, URNs: []string{"telegram:12345"}}
 	blocked := &contactSpec{Name: "Bob", Lang: "fra", Status: "blocked", Groups: []int{1, 4}, Fields: map[string]string{}}
 	seenUni := &uniSpec{MaxChars: 640, UseLoc: true, Groups: []groupSpec{{Name: "S0"},
-		{Name: "Seen", Query: `last_seen_on != ""`, Coq: "QLastSeenSet"}, {Name: "Never seen", Query: `last_seen_on = ""`, Coq: "QLastSeenUnset"}}}
+		{Name: "Seen", Query: `last_seen_on != ""`, Coq: "QLastSeenSet"}, {Name: "Never seen", Query: `last_seen_on = ""`, Coq: "QLastSeenUnset"},
+		{Name: "Seen after mid 2027", Query: seenCmpQueries[2], Coq: "QLastSeenCmp 2"}, {Name: "Seen by mid 2027", Query: seenCmpQueries[3], Coq: "QLastSeenCmp 3"},
+		{Name: "Seen before mid 2022", Query: seenCmpQueries[1], Coq: "QLastSeenCmp 1"}}}
 	neverSeen := &contactSpec{Name: "Jim", Lang: "eng", Status: "active", Groups: []int{0, 2}, Fields: map[string]string{}}
+	seenAt := func(t string) *contactSpec {
+		return &contactSpec{Name: "Jim", Lang: "eng", Status: "active", LastSeen: t, Groups: []int{0, 1}, Fields: map[string]string{}}
+	}
 	return []*sprintInput{
+		// the received message is not later than the contact's last seen (12:00:00 vs 08:00:00 / 09:00:00; equal; 30 s
+		// later): msg_received still replays to the message's time, so the contact must carry exactly that time
+		{Universe: seenUni, Contact: seenAt("2024-05-06T12:00:00Z"), Trigger: "msg", Nodes: []nodeSpec{{}, {Wait: "msg"}, {}}, Resumes: []resumeSpec{{Kind: "msg"}}},
+		// last seen in 2030 / 2018, stored in the matching comparison groups: the message of 2024 moves the contact across
+		{Universe: seenUni, Contact: &contactSpec{Name: "Jim", Lang: "eng", Status: "active", LastSeen: "2030-01-01T00:00:00Z", Groups: []int{0, 1, 3}, Fields: map[string]string{}},
+			Trigger: "manual", Nodes: []nodeSpec{{Wait: "msg"}, {}}, Resumes: []resumeSpec{{Kind: "msg"}}},
+		{Universe: seenUni, Contact: &contactSpec{Name: "Jim", Lang: "eng", Status: "active", LastSeen: "2018-01-01T00:00:00Z", Groups: []int{0, 1, 4, 5}, Fields: map[string]string{}},
+			Trigger: "msg", Nodes: []nodeSpec{{Actions: []*modSpec{{Kind: "language", Text: "fra"}}}}},
+		{Universe: seenUni, Contact: seenAt("2024-05-06T08:00:30Z"), Trigger: "manual", Nodes: []nodeSpec{{Wait: "msg"}, {Wait: "msg"}, {Wait: "msg"}, {}},
+			Resumes: []resumeSpec{{Kind: "msg"}, {Kind: "msg", Tweak: "last_seen_later"}, {Kind: "msg", Refresh: seenAt("2024-05-06T11:00:00Z")}}},
+		{Universe: seenUni, Contact: seenAt("2024-05-06T08:00:00Z"), Trigger: "msg", Nodes: []nodeSpec{{}, {Wait: "msg"}, {Wait: "msg"}, {}},
+			Resumes: []resumeSpec{{Kind: "msg", Tweak: "last_seen_now"}, {Kind: "msg+same"}}},
 		// a contact never seen before, manual trigger, wait, plain msg resume (no refreshed contact), no action at all:
 		// last_seen_on is set by the resume, so the contact must move from "Never seen" to "Seen"
 		{Universe: seenUni, Contact: neverSeen, Trigger: "manual", Nodes: []nodeSpec{{Wait: "msg"}, {}}, Resumes: []resumeSpec{{Kind: "msg"}}},
